@@ -1,4 +1,4 @@
-//! Rewrite rules R0..R17 (DESIGN.md 2.1). Every rule is a syn visitor that emits text edits; a rule is
+//! Rewrite rules R0..R18 (DESIGN.md 2.1). Every rule is a syn visitor that emits text edits; a rule is
 //! re-run on the re-parsed text until it finds nothing more, so nested occurrences are handled.
 
 use crate::{apply_edits, br, nr, txt, Ctx, Edit};
@@ -24,6 +24,7 @@ pub fn run_all(text: &str, ctx: &Ctx, log: &mut BTreeMap<&'static str, usize>) -
         ("R16", r16),
         ("R15", r15),
         ("R17", r17),
+        ("R18", r18),
         ("R5", r5),
         ("R4", r4),
         ("R1", r1),
@@ -1449,4 +1450,28 @@ impl<'a, 'ast> Visit<'ast> for R17<'a> {
 }
 fn r17(src: &str, f: &syn::File, _c: &Ctx, e: &mut Vec<Edit>) {
     R17 { src, edits: e }.visit_file(f);
+}
+
+// ---------------------------------------------------------------------------------------------- R18
+// `X.iter().next()`  ->  `{ let mut itn_ = X.iter(); itn_.next() }` : the iterator gets a name (the item borrows from X, not from it)
+struct R18<'a> {
+    src: &'a str,
+    edits: &'a mut Vec<Edit>,
+}
+impl<'a, 'ast> Visit<'ast> for R18<'a> {
+    fn visit_expr_method_call(&mut self, m: &'ast syn::ExprMethodCall) {
+        if m.method == "next" && m.args.is_empty() {
+            if let Expr::MethodCall(it) = &*m.receiver {
+                if it.method == "iter" && it.args.is_empty() {
+                    let (s, e) = nr(m);
+                    self.edits.push(Edit { start: s, end: e, text: format!("{{ let mut itn_ = {}.iter(); itn_.next() }}", txt(self.src, &*it.receiver)), rule: "R18" });
+                    return;
+                }
+            }
+        }
+        visit::visit_expr_method_call(self, m);
+    }
+}
+fn r18(src: &str, f: &syn::File, _c: &Ctx, e: &mut Vec<Edit>) {
+    R18 { src, edits: e }.visit_file(f);
 }
